@@ -228,7 +228,12 @@ class HistProp:
 
     # -- enumeration
     def cases(self, tier, seed):
-        yield from self._mod.cases(tier, seed)
+        for c in self._mod.cases(tier, seed):
+            yield c
+            # every state with an attribute value that contains two equal containers is also built with
+            # ONE shared container object in both places
+            if len(c) == 2 and _is_model(c[1]) and any(f[5] and any(_repeats(av) for (_an, av) in f[5]) for f in sh.features(c[1])):
+                yield ('XD', c)
         yield from self.history_cases(tier)
 
     def history_cases(self, tier):
@@ -278,10 +283,6 @@ class HistProp:
             for s in bases[:DAG_BASES[tier]]:
                 for t in cm.dag_trees():
                     yield ('XD', (s[0], cm.with_ctc((s[1][0], ()), t)))
-            # attribute values in which the same container object occurs twice
-            for s in sentinels:
-                if len(s) == 2 and _is_model(s[1]) and any(_repeats(av) for f in sh.features(s[1]) for (_an, av) in f[5]):
-                    yield ('XD', s)
 
     def plan(self, tier):
         p = dict(self._mod.plan(tier)) if hasattr(self._mod, 'plan') else {}
